@@ -1,4 +1,5 @@
 // C01: direct geodesic problem (series, exact, exact=true, every line form and overload) against the specification oracle
+#include "C01_tool.hpp"
 #include "geodcommon.hpp"
 #include "C01_line.hpp"
 #include "C01_xline.hpp"
@@ -181,6 +182,7 @@ void gv::generate(const std::string& tier, uint64_t seed) {
     // the same case through the Lean models: the series solver (constants, LineInit, GenPosition) and the exact line
     if (std::fabs(f) <= 0.2) gline::model_case(r, a, f, lat1, lon1, azi1, arc, len, i % 16 == 0);
     xline::model_case(r, a, f, lat1, lon1, azi1, arc, len);
+    if (i % 4 == 1 && f < 0.99) gtool::tool_case(r, a, f, lat1, lon1, azi1, arc, len);   // the command-line front end on the same case
     if (i % 4 == 0) { double x = r.range(-4, 4); int nn = r.irange(0, 9); Args sa = {r.coin() ? "1" : "0", hx(std::sin(x)), hx(std::cos(x))}; for (int j = 0; j < nn; ++j) sa.push_back(hx(r.range(-1, 1) * std::pow(10.0, -j))); run("sincosseries", sa); }
     if (i % 2 == 0) {   // E(Einv(x)) = x over k2 in (-inf, 1), incl. the values met for b/a = 0.01 (k2 -> -9999) and 100 (k2 -> 0.9999)
       int kk = r.irange(0, 7);
